@@ -475,7 +475,7 @@ pub fn multi_from(v: &Value) -> R<MultiCase> {
 }
 
 fn fam_to(f: &KeyFamily) -> Value {
-    json!({"n": f.n, "fanout": f.fanout, "keylen": f.keylen, "seed": f.seed.to_string(), "prefix_pairs": f.pairs, "leaf_fan": f.leaf_fan, "decreasing_values": f.decreasing})
+    json!({"n": f.n, "fanout": f.fanout, "keylen": f.keylen, "seed": f.seed.to_string(), "prefix_pairs": f.pairs, "leaf_fan": f.leaf_fan, "decreasing_values": f.decreasing, "repeat_each_key": f.repeat})
 }
 fn fam_from(v: &Value) -> R<KeyFamily> {
     Ok(KeyFamily {
@@ -486,6 +486,7 @@ fn fam_from(v: &Value) -> R<KeyFamily> {
         pairs: v.get("prefix_pairs").and_then(|x| x.as_bool()).unwrap_or(false),
         leaf_fan: v.get("leaf_fan").and_then(|x| x.as_u64()).unwrap_or(0) as u32,
         decreasing: v.get("decreasing_values").and_then(|x| x.as_bool()).unwrap_or(false),
+        repeat: v.get("repeat_each_key").and_then(|x| x.as_u64()).unwrap_or(1) as u32,
     })
 }
 
@@ -500,7 +501,8 @@ pub fn case_to(c: &Case) -> Value {
             "bufwriter_capacity": match m.bufcap { None => Value::Null, Some(c) => json!(c) },
             "checkpoint_every": m.every,
             "sink": shape_to(&Some((m.shape, 0))),
-            "one_extend_iter_call": m.bulk,
+            "one_extend_iter_call": m.bulk && !m.bulk_stream,
+            "one_extend_stream_call": m.bulk && m.bulk_stream,
         }}),
         Case::Delta(d) => json!({"address_delta_boundary": {"target_delta": d.target, "seed": d.seed.to_string()}}),
         Case::FromIter(f) => json!({"from_iter": {"entry_point": f.entry.name(), "items": items_to(&f.items)}}),
@@ -531,7 +533,9 @@ pub fn case_from(v: &Value) -> R<Case> {
             bufcap: opt(x, "bufwriter_capacity").map(|c| c.as_u64().unwrap_or(0) as usize),
             every: get_u64(x, "checkpoint_every")?,
             shape: shape_from(opt(x, "sink"))?.map(|s| s.0).unwrap_or(Shape::Random { short_16: 2, intr_16: 1 }),
-            bulk: x.get("one_extend_iter_call").and_then(|b| b.as_bool()).unwrap_or(false),
+            bulk: x.get("one_extend_iter_call").and_then(|b| b.as_bool()).unwrap_or(false)
+                || x.get("one_extend_stream_call").and_then(|b| b.as_bool()).unwrap_or(false),
+            bulk_stream: x.get("one_extend_stream_call").and_then(|b| b.as_bool()).unwrap_or(false),
         }));
     }
     if let Some(x) = v.get("address_delta_boundary") {
